@@ -13,9 +13,11 @@ def not_applicable():
     return {}
 
 
-def main(pid, tier, seed, replay):
+def main(pid, tier, seed, replay, selftest=False):
     cs = checks()
     if pid not in cs:
         print("unknown property " + pid, file=sys.stderr)
         return 2
+    if selftest:
+        return runner.run_selftest(cs[pid], seed)
     return runner.run_check(cs[pid], tier, seed, replay)
